@@ -183,7 +183,7 @@ func (r *c07Rig) inject(c *c07Case, ref *c07Ref) c07Outcome {
 	}
 	// final comparison
 	got, want := cpu.States, ref.st
-	got.IR.Lo, want.IR.Lo = 0, 0
+	got.IR.Lo, want.IR.Lo = got.IR.Lo&0x80, want.IR.Lo&0x80 // the counter bits differ by the handler's fetches; bit 7 must survive
 	if got.PC == p.L.Halt+1 && parkedAtInjection {
 		got.PC = p.L.Halt
 	}
